@@ -267,6 +267,23 @@ B64Groups(s, i, acc) ==
        ELSE B64Groups(s, i + 4, acc \o <<n \div 65536, (n \div 256) % 256, n % 256>>)
 B64Decode(s) == IF Len(s) % 4 # 0 THEN [ok |-> FALSE, bytes |-> <<>>] ELSE B64Groups(s, 1, <<>>)
 RX == INSTANCE Regex
+TM == INSTANCE Time
+\* a number of seconds since the epoch as (day number, second of the day): digits divided by 86400 the long way (the seconds of the year 9999 are
+\* not a 32-bit number).  A fraction is only followed for positive dyadic numbers (the whole second is then the floor); the text is the whole
+\* number of seconds as %s prints it.
+RECURSIVE LongDiv(_, _, _, _, _)
+LongDiv(ds, i, k, q, r) == IF i > Len(ds) THEN [q |-> q, r |-> r] ELSE LET n == r * 10 + ds[i] IN LongDiv(ds, i + 1, k, q * 10 + n \div k, n % k)
+TimeOf(x) ==
+  LET whole == IF x.e >= 0 THEN x.d \o Zeros(x.e) ELSE IF Len(x.d) + x.e <= 0 THEN <<>> ELSE SubSeq(x.d, 1, Len(x.d) + x.e)
+      frac == x.e < 0
+      small == Len(whole) <= 12 /\ (frac => (~x.neg /\ IsDy(x)))
+      qr == IF small THEN LongDiv(whole, 1, 86400, 0, 0) ELSE [q |-> 0, r |-> 0]
+      z == IF ~x.neg THEN qr.q ELSE IF qr.r = 0 THEN -qr.q ELSE -qr.q - 1
+      sod == IF ~x.neg \/ qr.r = 0 THEN qr.r ELSE 86400 - qr.r
+      text == (IF x.neg /\ whole # <<>> THEN <<45>> ELSE <<>>) \o (IF whole = <<>> THEN <<48>> ELSE [i \in 1..Len(whole) |-> whole[i] + 48])
+  IN [ok |-> small /\ z >= TM!MinDay /\ z <= TM!MaxDay, frac |-> frac, z |-> z, sod |-> sod, text |-> text]
+UsesFraction(fmt) == \E i \in 1..Len(TM!Items(fmt)) : TM!Items(fmt)[i].k = "spec" /\ TM!Items(fmt)[i].s \in {102, 43}
+SecondsOf(z, sod) == DecAdd(DecMul(DecOfInt(z), DecOfInt(86400)), DecOfInt(sod))
 \* the AST of a pattern text, if the context brings one (c.re: a sequence of [p |-> text, ast |-> AST of Regex.tla])
 ReOf(c, pat) == IF "re" \in DOMAIN c /\ \E k \in 1..Len(c.re) : c.re[k].p = pat
                 THEN c.re[CHOOSE k \in 1..Len(c.re) : c.re[k].p = pat].ast ELSE [r |-> "unknown"]
@@ -357,7 +374,11 @@ EvalCall(f, args, c) ==
                                first == R!PValue(bytes, R!SkipWs(bytes, 1))
                                trailing == first.ok /\ first.p <= Len(bytes) /\ bytes[first.p] \in {32, 9, 10, 13} /\ R!SkipWs(bytes, first.p) <= Len(bytes) IN
                            IF p.ok /\ PlainNumbers(p.v) /\ R!DistinctKeys(p.v) THEN p.v ELSE IF trailing THEN Nothing ELSE Unspec
-    [] f \in {"parse_time", "parse_time_with_zone"} ->
+    \* times: the documentation refers to the strftime page of chrono; Time.tla gives the specifiers a meaning (whole seconds, years 1..9999)
+    [] f = "parse_time" ->
+         IF IsU(a1) \/ IsU(a2) THEN Unspec ELSE IF a1.t # "str" \/ a2.t # "str" THEN Nothing
+         ELSE LET p == TM!Parse(a1.c, a2.c) IN IF p.ok THEN SecondsOf(p.z, p.sod) ELSE Unspec
+    [] f = "parse_time_with_zone" ->
          IF IsU(a1) \/ IsU(a2) THEN Unspec ELSE IF a1.t = "str" /\ a2.t = "str" THEN Unspec ELSE Nothing
     \* regular expressions: the documentation refers to the regex crate; Regex.tla gives the fragment a meaning (leftmost-first), the AST of a
     \* pattern text comes with the context (c.re) - a pattern without one has no meaning here
@@ -370,7 +391,11 @@ EvalCall(f, args, c) ==
          ELSE LET re == ReOf(c, a2.c) IN
               IF re.r = "unknown" THEN Unspec ELSE IF ~RX!Valid(re) THEN Nothing
               ELSE LET g == RX!GroupText(re, a1.c, CountOf(a3)) IN IF g.some THEN Str(g.text) ELSE Nothing
-    [] f = "format_time" -> IF IsU(a1) \/ IsU(a2) THEN Unspec ELSE IF a1.t = "num" /\ a2.t = "str" THEN Unspec ELSE Nothing
+    [] f = "format_time" ->
+         IF IsU(a1) \/ IsU(a2) THEN Unspec ELSE IF a1.t # "num" \/ a2.t # "str" THEN Nothing
+         ELSE LET t == TimeOf(a1) IN
+              IF ~t.ok \/ ~TM!FormatOk(a2.c) \/ (t.frac /\ UsesFraction(a2.c)) THEN Unspec
+              ELSE Str(TM!FormatS(t.z, t.sod, a2.c, t.text))
     \* "Decode a BASE64 string and try to convert to a string using UTF8; nothing if the argument is not a valid UTF8 string encoded using BASE64"
     [] f = "base63_decode" -> IF IsU(a1) THEN Unspec ELSE IF a1.t # "str" THEN Nothing
                               ELSE LET b == B64Decode(a1.c) IN
